@@ -381,8 +381,39 @@ let run_ep (args : string list) : string =
          | None -> "err" in
        Printf.sprintf "ok:%s rt=%s fmt=%s" canon rt (hex_of (List.map n_of_int (utf8_encode (List.map int_of_n text)))))
 
+(* bind table against recorded OS answers:  b+K (OS listens on resolved endpoint K) | b- (OS refused) | bx (bad text) | uK | ux *)
+let run_bindtable (args : string list) : string =
+  let ops = List.map (fun t ->
+    if t = "b-" then Runtime.BBind None
+    else if t = "bx" then Runtime.BBindBadText
+    else if t = "ux" then Runtime.BUnbind (n_of_int 99999)
+    else if String.length t > 2 && String.sub t 0 2 = "b+" then Runtime.BBind (Some (n_of_int (int_of_string (String.sub t 2 (String.length t - 2)))))
+    else if t.[0] = 'u' then Runtime.BUnbind (n_of_int (int_of_string (String.sub t 1 (String.length t - 1))))
+    else failwith ("bindtable op " ^ t)) args in
+  let (s, outs) = Runtime.brun Runtime.bstate0 ops in
+  let o = List.map (function
+    | Runtime.BOk e -> Printf.sprintf "ok:%d" (int_of_n e) | Runtime.BErrOs -> "err:os" | Runtime.BErrParse -> "err:parse"
+    | Runtime.BUnbound -> "unbound" | Runtime.BNoSuchBind -> "nosuch") outs in
+  let lst l = if l = [] then "-" else String.concat "," (List.map (fun x -> string_of_int (int_of_n x)) (List.sort compare l)) in
+  String.concat " " (o @ ["table=" ^ lst s.Runtime.b_table; "os=" ^ lst s.Runtime.b_os])
+
+(* ownership:  own clears=0|1 handle table=1,2 queue=.. wakers=.. readers=.. binds=.. listeners=.. hs=.. conns=.. eps=.. *)
+let run_own (args : string list) : string =
+  let lst key = match opt_val (key ^ "=") args with
+    | Some "" | Some "-" | None -> []
+    | Some v -> List.map (fun x -> n_of_int (int_of_string x)) (String.split_on_char ',' v) in
+  let clears = (opt_val "clears=" args = Some "1") in
+  let o = { Runtime.o_handle = true; Runtime.o_table = lst "table"; Runtime.o_queue = lst "queue"; Runtime.o_wakers = lst "wakers";
+            Runtime.o_readers = lst "readers"; Runtime.o_binds = lst "binds"; Runtime.o_listeners = lst "listeners"; Runtime.o_handshakes = lst "hs" } in
+  let o' = Runtime.drop_socket clears o in
+  String.concat " " (
+    List.map (fun k -> Printf.sprintf "open#%d=%s" (int_of_n k) (if Runtime.conn_open o' k then "yes" else "no")) (lst "conns") @
+    List.map (fun e -> Printf.sprintf "listen#%d=%s" (int_of_n e) (if Runtime.listening o' e then "yes" else "no")) (lst "eps"))
+
 let run_case kind (args : string list) : string =
   match kind with
+  | "bindtable" -> run_bindtable args
+  | "own" -> run_own args
   | "ep" -> run_ep args
   | "proxy" -> (try run_proxy args with Unsupported s -> "model-unsupported " ^ s)
   | "ts" -> run_ts args
